@@ -16,7 +16,7 @@ def run(ctx):
                 "failing import / cyclic DAG, capture fd|sys|tee-sys|no, verbose 0-2, force, dry-run, invalid configuration; before/after each build: fstat(0..2), "
                 "/proc/self/fd, identity of sys.std*, cwd, warnings.filters, pdb.set_trace, registries; outcomes vs the same build in a fresh process; "
                 "the same sequence replayed in the Lean model; non-trivial = >= 2 builds and some build executed a task; distinct by canonical sequence")
-    capture_api.campaign_c15(ctx, ctx.scale(6, 60), workers=12)
+    capture_api.campaign_c15(ctx, ctx.scale(5, 60), workers=10)
     ctx.extra["oracle_only"] = [
         "per-task outcomes of consecutive builds (skip / would-be-executed / -k and -m selections / marks on task functions, F30) = outcomes of "
         "fresh-process builds: compared by oracle_c15 on every sequence; the Lean model takes outcomes as inputs (TaskIO) and proves only that the "
